@@ -415,3 +415,24 @@ def check_no_try_locks(run, world, rule, only=lambda b: True):
                         oracle='cache bookkeeping waits for its locks')
     run.ok(rule, 'no-try-acquisitions', '%d lock / borrow / DashMap acquisitions examined, none is a try_* variant' % n)
     return n
+
+
+UNLOCKERS = ('unlocked', 'unlocked_fair', 'bump', 'force_unlock', 'force_unlock_fair', 'force_unlock_read', 'force_unlock_write', 'downgrade', 'downgrade_to_upgradable')
+
+
+def check_no_lock_release_inside(run, world, rule, only=lambda b: True):
+    """a critical section that temporarily gives its lock away (`guard.unlocked(..)`, `bump`, `force_unlock`) is two
+    critical sections: what the section established before the gap can be undone by another thread inside it"""
+    n = 0
+    for body in world.bodies:
+        if not only(body):
+            continue
+        for b, t in body.calls():
+            cn = callee_name(t)
+            if cn.startswith('lock_api::') and cn.rsplit('::', 1)[-1] in UNLOCKERS:
+                n += 1
+                run.bad(rule, '%s/%s' % (body.name, cn.rsplit('::', 1)[-1]), '%s releases a lock in the middle of a critical section (%s at %s): the removal and the insertion (or the store and '
+                        'the queue update) around it are no longer atomic for other callers' % (body.name, cn.rsplit('::', 2)[-2] + '::' + cn.rsplit('::', 1)[-1], body.loc(b)),
+                        site='%s (%s)' % (body.name, body.loc(b)), oracle='cache critical sections are not interrupted')
+    run.ok(rule, 'no-interrupted-critical-sections', 'no guard.unlocked / bump / force_unlock in the analysed bodies')
+    return n
